@@ -243,7 +243,7 @@ def to_coq(K, m, spreads, order, draws, labels):
 
 def run(ctx):
     rng = np.random.default_rng(ctx.seed)
-    ctx.proof_layer(allowed_axioms=(), coq_deps=["Corr/RunRepop"], gen=["cluster_maintenance", "cm_repopulate"])
+    ctx.proof_layer(allowed_axioms=(), coq_deps=["Corr/RunRepop"], gen=["cluster_maintenance", "cm_repopulate", "cm_ranked"])
     core.note_drift(ctx, ANCHORS)
     cases = gen(ctx, rng)
     if not ctx.thorough:
